@@ -1,2 +1,2 @@
 #include "zvh_fault_redirect.h"
-#include "../../repo/lib/dictBuilder/cover.c"
+#include "cover.c"   /* found through -I<repo>/… (tools/build.py), so that ZV_REPO can point at another checkout */
